@@ -3,11 +3,11 @@ import G3D.Proofs.Polyhedron
 import G3D.Proofs.Equality
 import G3D.Proofs.Composite
 import G3D.Proofs.K5
-/-! # C05 — membership (`in`) agrees with exact containment
-    `den` is the point set denoted (parametric definition for flats, convex hull of the vertices for
-    polygons / polyhedra).  Full for Point in Line/HalfLine/Segment/Plane/ConvexPolygon and for the
-    composite cases listed below; for ConvexPolyhedron the direction hull ⊆ `in` is proved and the converse
-    (kernel K5) is decided by the correspondence against the exact H-representation. -/
+/-! # C05 — membership (`in`) agrees with exact containment  (full under the stated validity hypotheses)
+    `den` is the point set denoted (parametric definition for flats, convex hull of the vertices for polygons / polyhedra).
+    Point in Line/HalfLine/Segment/Plane/ConvexPolygon/ConvexPolyhedron, Segment / HalfLine / Line / ConvexPolygon in their
+    containers: iff "every point contained" (kernel K5 for polyhedra: face tests = hull, both directions).  The theorems named
+    `…_partial` are the one-directional statements that need only `VertsInside`. -/
 namespace G3D.Props.C05
 open G3D V3
 
